@@ -12,6 +12,9 @@ mod background;
 mod immediate_flush;
 mod metrics;
 
+#[cfg(all(metrique_verif, feature = "background-queue"))]
+#[doc(hidden)]
+pub use background::verif as background_verif;
 #[cfg(feature = "background-queue")]
 pub use background::{BACKGROUND_QUEUE_METRICS, describe_sink_metrics};
 #[cfg(feature = "background-queue")]
